@@ -177,7 +177,9 @@ def relay_side(ctx):
   mcs.append(dict(nd=2, maxq=2, mpm=1, flow=True, dynamic=True))
   for i, c in enumerate(mcs):
     rm.configure(dict(c, nr=1))
-    consts = relaycheck.consts_for(rm, ctx.pick(4, 5), ctx.pick(3, 4))
+    # (the one-datapoint dynamic configuration has by far the largest state space: 47 M states at 5 items / 4 connection
+    # events; it is explored at 5 / 3)
+    consts = relaycheck.consts_for(rm, ctx.pick(4, 5), 3 if (c.get('mpm') == 1 and c.get('nd') == 2) else ctx.pick(3, 4))
     res = relaycheck.model_check(ctx, 'Relay-flow#%d' % i, consts, ['TypeOK', 'NoStuck'], timeout=2400)
     if res.violated:
       raise Machinery('Relay.tla violates %s: %s' % (res.violated, [a for a, _ in res.cex]))
